@@ -164,6 +164,23 @@ def _layering_body(tmod, prep: Function, rep, rule: str) -> None:
         else:
             rep.violation(rule, sub0 + " auth sees layered headers", f"{prep.fq}|auth-input",
                           "the dict handed to the auth plugin does not carry the layered headers under 'headers'", prep.loc(a_calls[0]))
+    # the credential layer comes last: the transport's own `bearer_token` shortcut is "auth" (documented as add/overwrite Authorization),
+    # so the item assignment that writes it must not be overwritable by the per-request update - it lies after it on every path
+    if r_upd:
+        nr2 = node_of(r_upd[0])
+        for n_ in cfg.nodes:
+            if n_.kind != "stmt" or n_.ast is None or n_.copy or not isinstance(n_.ast, ast.Assign):
+                continue
+            tg = n_.ast.targets[0]
+            if isinstance(tg, ast.Subscript) and isinstance(tg.value, ast.Name) and tg.value.id == wv and any(
+                    isinstance(x, ast.Attribute) and "token" in x.attr for x in ast.walk(n_.ast.value)):
+                subb = sub0 + f" credential `{norm(tg)[:40]}`"
+                if nr2 is not None and nr2 in cfg.reachable(n_.id):
+                    rep.violation(rule, subb, f"{prep.fq}|credential-before-request-headers",
+                                  f"`{norm(n_.ast)[:70]}` runs before the per-request headers are merged: a per-request `Authorization` header (e.g. a declared header "
+                                  "parameter) replaces the configured token, unlike with the equivalent auth plugin", prep.loc(n_.ast))
+                else:
+                    rep.ok(rule, subb, "written after the per-request headers were merged: the configured credential wins, like a plugin's contribution", prep.loc(n_.ast))
     # no other mutation of the working dict between layers than update / Authorization for bearer token
     for n in own_nodes(prep.node):
         if isinstance(n, ast.Assign) and isinstance(n.targets[0], ast.Name) and n.targets[0].id == wv and n is not first:
